@@ -1075,7 +1075,11 @@ class ListProxy(BaseProxy):
     'values',
 )
 class DictProxy(BaseProxy):
-    pass
+    def __iter__(self):
+        # Without `__iter__`, `for k in proxy` and `list(proxy)` fall back to the sequence
+        # protocol, i.e. `proxy[0]`, `proxy[1]`, ...: `KeyError(0)`, or the *values* of
+        # integer keys. Iterate over (a snapshot of) the keys, like `dict` does.
+        return iter(self.keys())
 
 
 @add_proxy_methods('__len__', '__getitem__', '__setitem__')
